@@ -73,11 +73,16 @@ class SQLLineageApp:
                     request_body_size = int(environ["CONTENT_LENGTH"])
                     request_body = environ["wsgi.input"].read(request_body_size)
                     payload = json.loads(request_body)
+                    root_path = Path(self.root_path).resolve()
                     for param in ["d", "f"]:
-                        if param in payload and not str(
-                            Path(payload[param]).absolute()
-                        ).startswith(str(Path(self.root_path).absolute())):
-                            return self.handle_403(start_response)
+                        if param in payload:
+                            # compare resolved paths, not their string prefix: a directory must be root_path or
+                            # under it, a file must be under it (it's the file's folder that gets listed)
+                            path = Path(payload[param]).resolve()
+                            if root_path not in path.parents and not (
+                                param == "d" and path == root_path
+                            ):
+                                return self.handle_403(start_response)
                     data = self.routes[path_info](payload)
                     return self.handle_200_json(start_response, data)
                 else:
